@@ -1,4 +1,79 @@
-import SdModel.Model.Derive
+import SdModel.Lemmas.DeriveKnot
+
+/-!
+# C01 — round trip: applying `a.diff(&b)` to `a` reproduces `b` on every unskipped field
+
+`Derive.semTy t` is the generated `impl StructDiff` of a type with descriptor `t` (any nesting depth, any mix of
+the eight field templates, any skip pattern, structs and enums); `Derive.relTy t` packages, by structural
+recursion over `t`,
+* `wt`    : the value has the shape of the type (maps have distinct keys),
+* `post f b r` : "`r` is what patching the base `f` towards the target `b` must look like": per field —
+  skipped: `r = f`;  plain / enum / ordered: `r = b`;  unordered array: `r` equals `b` as a multiset;
+  flat map: `r` equals `b` as a map;  nested: `post` of the nested type (so nested skipped fields keep the
+  base's value);  optional nested: `None`/`Some` follow `b`, the payload is patched in place or set to `b`'s;
+  recursive map: exactly `b`'s keys, every value either `b`'s or the base's value patched (`post` again) —
+  in key-only mode either `b`'s or the base's value.
+The theorems hold for EVERY descriptor and all well-typed values; nothing is bounded.
+-/
 namespace C01
-theorem placeholder : True := trivial
+open Derive
+
+/-- **C01**: `a.apply(a.diff(&b))` returns normally and satisfies the post-condition against base `a`, target `b` -/
+theorem roundtrip (t : Ty) (a b : Val) (ha : (relTy t).wt a) (hb : (relTy t).wt b) :
+    ∃ r, (semTy t).apply a ((semTy t).diff a b) = .ok r ∧ (relTy t).wt r ∧ (relTy t).post a b r :=
+  (spec_ty t).follow a b a ha hb ha ((spec_ty t).refl a ha)
+
+/-- the result is equivalent to `b` (what a later diff computed by `b`'s owner can be applied to) -/
+theorem roundtrip_equiv (t : Ty) (a b : Val) (ha : (relTy t).wt a) (hb : (relTy t).wt b) :
+    ∃ r, (semTy t).apply a ((semTy t).diff a b) = .ok r ∧ (relTy t).equiv b r := by
+  obtain ⟨r, h1, h2, h3⟩ := roundtrip t a b ha hb
+  exact ⟨r, h1, (spec_ty t).post_equiv a b r ha hb h2 h3⟩
+
+/-! Reading the post-condition of a struct field by field. -/
+
+/-- skipped fields keep the base's value, unskipped ones satisfy their strategy's post-condition -/
+theorem struct_post_fields (fs : FieldTys) (f b r : Val) (h : (relTy (.struct fs)).post f b r) :
+    ∃ x y z, f = .strct x ∧ b = .strct y ∧ r = .strct z ∧ SPost (relFields fs) x y z := by
+  simpa [relTy, structRel] using h
+
+theorem spost_head_skipped (F : FieldSem) (R : FieldRel) (fs : FS) (f b r : Val) (fr bs rs : Vals)
+    (h : SPost ((true, F, R) :: fs) (.cons f fr) (.cons b bs) (.cons r rs)) : r = f ∧ SPost fs fr bs rs := by
+  simpa [SPost] using h
+
+theorem spost_head_unskipped (F : FieldSem) (R : FieldRel) (fs : FS) (f b r : Val) (fr bs rs : Vals)
+    (h : SPost ((false, F, R) :: fs) (.cons f fr) (.cons b bs) (.cons r rs)) : R.post f b r ∧ SPost fs fr bs rs := by
+  simpa [SPost] using h
+
+/-- plain, enum-typed and ordered fields match exactly -/
+theorem post_plain (f b r : Val) : (relKind .plain).post f b r ↔ r = b := by simp [relKind, plainRel]
+theorem post_ordered (f b r : Val) : (relKind .ordered).post f b r ↔ r = b := by simp [relKind, orderedRel]
+theorem post_enum (f b r : Val) : (relTy .enum).post f b r ↔ r = b := by simp [relTy, enumRel]
+/-- unordered arrays match as multisets -/
+theorem post_unord (f b r : Val) :
+    (relKind .unordArr).post f b r ↔ ∃ l, r = .list l ∧ ∀ x, l.count x = (asList b).count x := by
+  simp [relKind, unordRel]
+/-- flat maps match as maps (both equality modes) -/
+theorem post_map (ko : Bool) (f b r : Val) :
+    (relKind (.map ko)).post f b r ↔
+      ∃ l, r = .pairs l ∧ UMap.UniqueKeys l ∧ ∀ k, UMap.plookup l k = UMap.plookup (asPairs b) k := by
+  simp [relKind, mapRel]
+
+/-! Non-vacuity: a concrete type mixing a skipped field, a plain field, an unordered array and a nested struct,
+with concrete well-typed values. -/
+
+def exTy : Ty := .struct (.cons true .plain (.cons false .plain (.cons false .unordArr
+  (.cons false (.recurse (.struct (.cons false .ordered (.cons true .plain .nil)))) .nil))))
+def exA : Val := .strct (.cons (.atom 1) (.cons (.atom 2) (.cons (.list [1, 1, 2])
+  (.cons (.strct (.cons (.list [1, 2, 3]) (.cons (.atom 9) .nil))) .nil))))
+def exB : Val := .strct (.cons (.atom 7) (.cons (.atom 3) (.cons (.list [2, 2, 1])
+  (.cons (.strct (.cons (.list [1, 3]) (.cons (.atom 8) .nil))) .nil))))
+
+example : (relTy exTy).wt exA ∧ (relTy exTy).wt exB := by
+  constructor <;>
+  · refine ⟨_, rfl, ?_⟩
+    simp only [relFields, SWT, relKind, plainRel, unordRel, recurseRel, relTy, structRel, orderedRel]
+    refine ⟨trivial, trivial, ⟨_, rfl⟩, ⟨_, rfl, ?_⟩, trivial⟩
+    simp only [SWT]
+    exact ⟨⟨_, rfl⟩, trivial, trivial⟩
+
 end C01
